@@ -115,6 +115,8 @@ def _zidify(rng, pg):
             it[2] = ["zid", day + "#" + suffix]
             if not it[3]:
                 it[3] = [["id", "w"]]
+        elif ident[0] == "mod":
+            it[2] = ["modzid", ident[1] if ident[1] != apage.short(DAY1) else "240101", day + "#" + suffix]
         elif ident[0] == "zid":
             it[2] = ["zid", ident[1][:7] + suffix]
         else:
